@@ -270,15 +270,10 @@ def _site_var(f, a):
 
 
 def gep_field(m, g):
-    """(struct short name, field name) addressed by a struct GEP, else None"""
-    st = g.d.get("srcty", "")
-    if st.startswith("%struct."):
-        sname = st[1:]
-        info = m.structs.get(sname)
-        if info and len(g.ops) >= 3 and g.ops[1][0] == "c" and g.ops[2][0] == "c":
-            idx = g.ops[2][1]
-            if idx < len(info["names"]):
-                return (sname[7:].split(".")[0], info["names"][idx][0] or str(idx))
+    """(struct short name, field name) addressed by a struct GEP (innermost field for nested paths), else None"""
+    path = ir._gep_path(m, g.d.get("srcty", ""), g.ops[1:])
+    if path and path[-1][0] == "f":
+        return (path[-1][1], path[-1][2])
     return None
 
 
